@@ -193,6 +193,12 @@ Definition ber_item (it : itemA) : tree :=
 Definition ONonempty (o : option (list byte)) : Prop := match o with Some x => x <> [] | None => True end.
 Definition starred (segs : list (list byte)) : list byte := concat (map (fun s => "*"%byte :: s) segs).
 Definition dnstr (dn : bool) : list byte := if dn then [":"; "d"; "n"]%byte else [].
+(* the flag as written: ":dn" in any spelling of its two letters (dnattrs = COLON "dn", an ABNF literal) *)
+Definition DnStr (dn : bool) (d : list byte) : Prop :=
+  if dn then exists c1 c2, d = [":"%byte; c1; c2] /\ is_dn c1 c2 = true else d = [].
+Lemma DnStr_canon dn : DnStr dn (dnstr dn).
+Proof. destruct dn; [exists "d"%byte, "n"%byte; split; reflexivity|reflexivity]. Qed.
+Definition is_dn_word (m : list byte) : bool := match m with [c1; c2] => is_dn c1 c2 | _ => false end.
 (* F14: the code commits to ":dn" when a matching-rule name merely starts with "dn" *)
 Definition starts_dn (m : list byte) : bool := match m with a :: b :: _ => beq a "d"%byte && beq b "n"%byte | _ => false end.
 
@@ -207,18 +213,18 @@ Inductive ItemStr : itemA -> list byte -> Prop :=
     ~ (ini = None /\ anys = [] /\ fin = None) ->
     ValEnc (oget ini) si -> Forall2 ValEnc anys sa -> ValEnc (oget fin) sf ->
     ItemStr (ISub a ini anys fin) (a ++ "="%byte :: si ++ starred (sa ++ [sf]))
-| S_ExtA a dn mr v s : AttrDesc a -> (match mr with Some m => Oid m | None => True end) -> ValEnc v s ->
+| S_ExtA a dn d mr v s : AttrDesc a -> DnStr dn d -> (match mr with Some m => Oid m | None => True end) -> ValEnc v s ->
     ItemStr (IExt mr (Some a) dn v)
-            (a ++ dnstr dn ++ (match mr with Some m => ":"%byte :: m | None => [] end) ++ ":"%byte :: "="%byte :: s)
-| S_ExtM m dn v s : Oid m -> ValEnc v s ->
-    ItemStr (IExt (Some m) None dn v) (dnstr dn ++ ":"%byte :: m ++ ":"%byte :: "="%byte :: s).
+            (a ++ d ++ (match mr with Some m => ":"%byte :: m | None => [] end) ++ ":"%byte :: "="%byte :: s)
+| S_ExtM m dn d v s : Oid m -> DnStr dn d -> ValEnc v s ->
+    ItemStr (IExt (Some m) None dn v) (d ++ ":"%byte :: m ++ ":"%byte :: "="%byte :: s).
 
 (* RFC 4515's grammar is ambiguous on one string shape: "a:dn:=v" is both attribute a with the dn flag and no rule, and attribute a
    with a matching rule literally named "dn" and no flag. The library (like every LDAP implementation) reads the flag; the second
    reading is therefore excluded from the completeness statement. Before the repair of F14 this exclusion had to cover every rule
    name that merely started with "dn". *)
 Definition KnownF14 (it : itemA) : Prop :=
-  match it with IExt (Some m) _ false _ => m = ["d"; "n"]%byte | _ => False end.
+  match it with IExt (Some m) _ false _ => is_dn_word m = true | _ => False end.
 
 Definition item_stop (rest : list byte) : Prop := match rest with [] => True | c :: _ => c = ")"%byte end.
 Lemma item_stop_val rest : item_stop rest -> val_stop rest.
@@ -348,21 +354,22 @@ Proof. intros Ha. unfold non_eq. rewrite (attributedescription_app _ _ Ha) by re
 (* ":dn" is not taken when what follows the colon is a rule name other than "dn" itself *)
 Lemma alnum_not_colon c : is_alnum_hyphen c = true -> beq c ":"%byte = false.
 Proof. destruct c; vm_compute; congruence. Qed.
-Lemma Oid_dn_third c3 w : Oid ("d"%byte :: "n"%byte :: c3 :: w) -> beq c3 ":"%byte = false.
+Lemma Oid_dn_third c1 c2 c3 w : is_dn c1 c2 = true -> Oid (c1 :: c2 :: c3 :: w) -> beq c3 ":"%byte = false.
 Proof.
-  intros [(d & ds & (Hne & Hdig & _) & _ & _ & E)|(c & w' & E & _ & Hw)].
-  - destruct d as [|x d']; [congruence|]. cbn in E. injection E as <- _. cbn in Hdig. discriminate.
+  intros Hdn [(d & ds & (Hne & Hdig & _) & _ & _ & E)|(c & w' & E & _ & Hw)].
+  - destruct d as [|x d']; [congruence|]. cbn in E. injection E as <- _. cbn in Hdig. apply andb_true_iff in Hdig as [Hx _].
+    unfold is_dn in Hdn. apply andb_true_iff in Hdn as [Hd _]. apply orb_true_iff in Hd as [Hd|Hd]; apply Byte.byte_dec_bl in Hd; subst; discriminate.
   - injection E as <- <-. cbn [forallb] in Hw. apply andb_true_iff in Hw as [_ Hw]. apply andb_true_iff in Hw as [Hc _]. now apply alnum_not_colon.
 Qed.
-Lemma opt_dn_rule m r : Oid m -> m <> ["d"; "n"]%byte ->
+Lemma opt_dn_rule m r : Oid m -> is_dn_word m <> true ->
   opt_dn (":"%byte :: m ++ ":"%byte :: r) = (false, ":"%byte :: m ++ ":"%byte :: r).
 Proof.
-  intros Ho Hne. destruct (Oid_head _ Ho) as (c & w & -> & _). unfold opt_dn. cbn [tag app]. change (beq ":" ":")%byte with true. cbn match.
-  destruct (beq "d" c) eqn:Ed; [|reflexivity]. destruct w as [|b w]; cbn [app tag].
-  - reflexivity.
-  - destruct (beq "n" b) eqn:En; [|reflexivity].
-    apply Byte.byte_dec_bl in Ed, En. subst c b. destruct w as [|c3 w]; [congruence|]. cbn [app].
-    now rewrite (Oid_dn_third c3 w Ho).
+  intros Ho Hne. destruct (Oid_head _ Ho) as (c & w & -> & _). unfold opt_dn. cbn [app]. change (beq ":" ":")%byte with true. cbn [andb].
+  destruct w as [|b w]; cbn [app].
+  { destruct r as [|c0 r]; [reflexivity|]. unfold is_dn. change (beq ":" "n" || beq ":" "N")%byte with false. rewrite andb_false_r. reflexivity. }
+  destruct w as [|c3 w]; cbn [app].
+  - cbn [is_dn_word] in Hne. destruct (is_dn c b); [congruence|reflexivity].
+  - destruct (is_dn c b) eqn:Edn; [|reflexivity]. cbn [andb]. now rewrite (Oid_dn_third c b c3 w Edn Ho).
 Qed.
 Lemma opt_mrule_some m rest : Oid m -> opt_mrule (":"%byte :: m ++ ":"%byte :: "="%byte :: rest) = (Some m, ":"%byte :: "="%byte :: rest).
 Proof. intros Ho. unfold opt_mrule. cbn [tag]. change (beq ":" ":")%byte with true. cbn match.
@@ -370,41 +377,41 @@ Proof. intros Ho. unfold opt_mrule. cbn [tag]. change (beq ":" ":")%byte with tr
 Lemma opt_mrule_none rest : opt_mrule (":"%byte :: "="%byte :: rest) = (None, ":"%byte :: "="%byte :: rest).
 Proof. reflexivity. Qed.
 
-Lemma opt_tag_dn r : opt_dn (":"%byte :: "d"%byte :: "n"%byte :: ":"%byte :: r) = (true, ":"%byte :: r).
-Proof. reflexivity. Qed.
+Lemma opt_tag_dn d r : DnStr true d -> opt_dn (d ++ ":"%byte :: r) = (true, ":"%byte :: r).
+Proof. intros (c1 & c2 & -> & H). unfold opt_dn. cbn [app]. rewrite H. reflexivity. Qed.
 Lemma tag_colon r : tag [":"%byte] (":"%byte :: r) = Some r.
 Proof. reflexivity. Qed.
 Lemma tag_coloneq r : tag [":"; "="]%byte (":"%byte :: "="%byte :: r) = Some r.
 Proof. reflexivity. Qed.
 Lemma opt_tag_dn_coloneq r : opt_dn (":"%byte :: "="%byte :: r) = (false, ":"%byte :: "="%byte :: r).
-Proof. reflexivity. Qed.
-Lemma attr_dn_mrule_app a dn mr v s rest :
-  AttrDesc a -> (match mr with Some m => Oid m | None => True end) -> ValEnc v s -> item_stop rest ->
+Proof. destruct r as [|c2 [|c r]]; reflexivity. Qed.
+Lemma attr_dn_mrule_app a dn d mr v s rest :
+  AttrDesc a -> DnStr dn d -> (match mr with Some m => Oid m | None => True end) -> ValEnc v s -> item_stop rest ->
   ~ KnownF14 (IExt mr (Some a) dn v) ->
-  attr_dn_mrule ((a ++ dnstr dn ++ (match mr with Some m => ":"%byte :: m | None => [] end) ++ ":"%byte :: "="%byte :: s) ++ rest)
+  attr_dn_mrule ((a ++ d ++ (match mr with Some m => ":"%byte :: m | None => [] end) ++ ":"%byte :: "="%byte :: s) ++ rest)
   = Some (ext_tag_of mr (Some a) v dn, rest).
 Proof.
-  intros Ha Hm Hv Hr Hk. unfold attr_dn_mrule. rewrite <- app_assoc.
-  assert (Hst : attr_stop ((dnstr dn ++ (match mr with Some m => ":"%byte :: m | None => [] end) ++ ":"%byte :: "="%byte :: s) ++ rest)).
-  { destruct dn; [reflexivity|]. destruct mr; reflexivity. }
+  intros Ha Hd Hm Hv Hr Hk. unfold attr_dn_mrule. rewrite <- app_assoc.
+  assert (Hst : attr_stop ((d ++ (match mr with Some m => ":"%byte :: m | None => [] end) ++ ":"%byte :: "="%byte :: s) ++ rest)).
+  { destruct dn; [destruct Hd as (c1 & c2 & -> & _); reflexivity|]. cbn in Hd. subst d. destruct mr; reflexivity. }
   rewrite (attributedescription_app _ _ Ha Hst).
   pose proof (unescaped_app _ _ _ Hv (item_stop_val _ Hr)) as Hu.
-  destruct dn, mr as [m|]; cbn [dnstr app]; rewrite <- ?app_assoc; cbn [app].
-  - rewrite opt_tag_dn, (opt_mrule_some _ _ Hm), tag_coloneq, Hu. reflexivity.
-  - rewrite opt_tag_dn, opt_mrule_none, tag_coloneq, Hu. reflexivity.
+  destruct dn, mr as [m|]; [| |cbn in Hd; subst d|cbn in Hd; subst d]; rewrite <- ?app_assoc; cbn [app].
+  - rewrite (opt_tag_dn d _ Hd), (opt_mrule_some _ _ Hm), tag_coloneq, Hu. reflexivity.
+  - rewrite (opt_tag_dn d _ Hd), opt_mrule_none, tag_coloneq, Hu. reflexivity.
   - rewrite (opt_dn_rule _ _ Hm Hk), (opt_mrule_some _ _ Hm), tag_coloneq, Hu. reflexivity.
   - rewrite opt_tag_dn_coloneq, opt_mrule_none, tag_coloneq, Hu. reflexivity.
 Qed.
 
-Lemma dn_mrule_app m dn v s rest :
-  Oid m -> ValEnc v s -> item_stop rest -> ~ KnownF14 (IExt (Some m) None dn v) ->
-  dn_mrule ((dnstr dn ++ ":"%byte :: m ++ ":"%byte :: "="%byte :: s) ++ rest) = Some (ext_tag_of (Some m) None v dn, rest).
+Lemma dn_mrule_app m dn d v s rest :
+  Oid m -> DnStr dn d -> ValEnc v s -> item_stop rest -> ~ KnownF14 (IExt (Some m) None dn v) ->
+  dn_mrule ((d ++ ":"%byte :: m ++ ":"%byte :: "="%byte :: s) ++ rest) = Some (ext_tag_of (Some m) None v dn, rest).
 Proof.
-  intros Hm Hv Hr Hk. unfold dn_mrule. pose proof (unescaped_app _ _ _ Hv (item_stop_val _ Hr)) as Hu.
+  intros Hm Hd Hv Hr Hk. unfold dn_mrule. pose proof (unescaped_app _ _ _ Hv (item_stop_val _ Hr)) as Hu.
   assert (Hat : forall r, attributetype (m ++ ":"%byte :: "="%byte :: r) = Some (m, ":"%byte :: "="%byte :: r)).
   { intros r. apply attributetype_app; [assumption|]. cbn. split; reflexivity. }
-  destruct dn; cbn [dnstr app]; rewrite <- ?app_assoc; cbn [app].
-  - rewrite opt_tag_dn, tag_colon, Hat, tag_coloneq, Hu. reflexivity.
+  destruct dn; [|cbn in Hd; subst d]; rewrite <- ?app_assoc; cbn [app]; rewrite <- ?app_assoc; cbn [app].
+  - rewrite (opt_tag_dn d _ Hd), tag_colon, Hat, tag_coloneq, Hu. reflexivity.
   - rewrite (opt_dn_rule _ _ Hm Hk), tag_colon, Hat, tag_coloneq, Hu. reflexivity.
 Qed.
 
@@ -425,16 +432,19 @@ Proof.
   - now rewrite (eq_item_Pres a rest).
   - now rewrite (eq_item_Sub a ini anys fin si sa sf rest).
   - (* attr form of extensible: eq and non_eq fail on ':' *)
-    set (tail := dnstr dn ++ (match mr with Some m => ":"%byte :: m | None => [] end) ++ ":"%byte :: "="%byte :: s).
-    assert (Ht : exists tl, tail ++ rest = ":"%byte :: tl) by (unfold tail; destruct dn; [eexists; reflexivity|destruct mr; eexists; reflexivity]).
+    set (tail := d ++ (match mr with Some m => ":"%byte :: m | None => [] end) ++ ":"%byte :: "="%byte :: s).
+    assert (Ht : exists tl, tail ++ rest = ":"%byte :: tl).
+    { unfold tail; destruct dn; [match goal with H : DnStr true d |- _ => destruct H as (c1 & c2 & -> & _) end; eexists; reflexivity|].
+      match goal with H : DnStr false d |- _ => cbn in H; subst d end. destruct mr; eexists; reflexivity. }
     destruct Ht as (tl & Ht). rewrite <- app_assoc. rewrite Ht.
     rewrite eq_item_none_op by (assumption || reflexivity). rewrite non_eq_none_colon by assumption.
-    rewrite <- Ht, app_assoc. unfold tail. now rewrite (attr_dn_mrule_app a dn mr v s rest).
+    rewrite <- Ht, app_assoc. unfold tail. now rewrite (attr_dn_mrule_app a dn d mr v s rest).
   - (* rule-only form: nothing that needs an attribute description can start *)
-    assert (Ht : exists tl, (dnstr dn ++ ":"%byte :: m ++ ":"%byte :: "="%byte :: s) ++ rest = ":"%byte :: tl) by (destruct dn; eexists; reflexivity).
+    assert (Ht : exists tl, (d ++ ":"%byte :: m ++ ":"%byte :: "="%byte :: s) ++ rest = ":"%byte :: tl).
+    { destruct dn; [match goal with H : DnStr true d |- _ => destruct H as (c1 & c2 & -> & _) end|match goal with H : DnStr false d |- _ => cbn in H; subst d end]; eexists; reflexivity. }
     destruct Ht as (tl & Ht). rewrite Ht.
     assert (Hn : attributedescription (":"%byte :: tl) = None) by (apply attrdesc_none_on; reflexivity).
-    unfold eq_item, non_eq, attr_dn_mrule. rewrite Hn. rewrite <- Ht. now apply (dn_mrule_app m dn v s rest).
+    unfold eq_item, non_eq, attr_dn_mrule. rewrite Hn. rewrite <- Ht. now apply (dn_mrule_app m dn d v s rest).
 Qed.
 
 (* ---------- filters ---------- *)
@@ -474,9 +484,9 @@ Proof.
   assert (G : forall c, (is_alpha c = true \/ is_digit c = true) ->
               beq c "&"%byte = false /\ beq c "|"%byte = false /\ beq c "!"%byte = false /\ beq c "("%byte = false).
   { intros c. destruct c; vm_compute; intros [H|H]; repeat split; congruence. }
-  intros H. destruct H as [a ? ? Ha|a ? ? Ha|a ? ? Ha|a ? ? Ha|a Ha|a ? ? ? ? ? ? Ha|a dn mr ? ? Ha|m dn ? ? Hm].
+  intros H. destruct H as [a ? ? Ha|a ? ? Ha|a ? ? Ha|a ? ? Ha|a Ha|a ? ? ? ? ? ? Ha|a dn d mr ? ? Ha|m dn d ? ? Hm Hd].
   1-7: destruct (AttrDesc_head _ Ha) as (c & w & -> & Hc); exists c; eexists; split; [reflexivity|now apply G].
-  destruct dn; cbn; eexists; eexists; (split; [reflexivity|repeat split]).
+  destruct dn; [destruct Hd as (c1 & c2 & -> & _)|cbn in Hd; subst d]; cbn; eexists; eexists; (split; [reflexivity|repeat split]).
 Qed.
 
 Lemma filter_closeparen f rest : filter f (")"%byte :: rest) = None.
@@ -539,9 +549,9 @@ Proof.
   assert (Hv : ValEnc (s2b "x") (s2b "x")) by (repeat (apply VE_plain; [reflexivity|]); constructor).
   split; [discriminate|]. split.
   - change (s2b "cn:dn:=x") with (s2b "cn" ++ dnstr true ++ [] ++ ":"%byte :: "="%byte :: s2b "x").
-    apply (S_ExtA (s2b "cn") true None (s2b "x") (s2b "x")); [exact Ha|exact I|exact Hv].
+    apply (S_ExtA (s2b "cn") true (dnstr true) None (s2b "x") (s2b "x")); [exact Ha|apply DnStr_canon|exact I|exact Hv].
   - change (s2b "cn:dn:=x") with (s2b "cn" ++ dnstr false ++ (":"%byte :: s2b "dn") ++ ":"%byte :: "="%byte :: s2b "x").
-    apply (S_ExtA (s2b "cn") false (Some (s2b "dn")) (s2b "x") (s2b "x")); [exact Ha| |exact Hv].
+    apply (S_ExtA (s2b "cn") false (dnstr false) (Some (s2b "dn")) (s2b "x") (s2b "x")); [exact Ha|apply DnStr_canon| |exact Hv].
     right. exists "d"%byte, ["n"%byte]. repeat split.
 Qed.
 (* F14's former witnesses are now within the theorem's domain *)
